@@ -251,3 +251,18 @@ Proof.
   - right; right; right; left. split; [exact E|apply roundtrip_p4; assumption].
   - right; right; right; right. split; [exact E|apply roundtrip_p5; assumption].
 Qed.
+
+(* the module-level conversion geoloc.get_lonlatalt runs the same loop *)
+Theorem module_loop_exits_by_5 x y z d : 0 < x * x + y * y -> XKMPER * XKMPER <= x * x + y * y + z * z ->
+  gen_geoloc_lla_exit_p1 x y z d \/ gen_geoloc_lla_exit_p2 x y z d \/ gen_geoloc_lla_exit_p3 x y z d \/
+  gen_geoloc_lla_exit_p4 x y z d \/ gen_geoloc_lla_exit_p5 x y z d.
+Proof.
+  intros Hxy Hab.
+  destruct (method_eq_module x y z d) as [_ [_ [_ [_ [_ [_ [_ [_ [_ [_ [_ [_ [_ [E1 [E2 [E3 [E4 [E5 _]]]]]]]]]]]]]]]]]].
+  destruct (loop_exits_by_5 x y z d Hxy Hab) as [E|[E|[E|[E|E]]]].
+  - left. apply E1, E.
+  - right; left. apply E2, E.
+  - right; right; left. apply E3, E.
+  - right; right; right; left. apply E4, E.
+  - right; right; right; right. apply E5, E.
+Qed.
